@@ -175,7 +175,13 @@ func (h *Handler) handleQuery(r *http.Request, w http.ResponseWriter, query *add
 		q.PropFilters = append(q.PropFilters, *pf)
 	}
 	if query.Limit != nil {
-		q.Limit = int(query.Limit.NResults)
+		const maxInt = int(^uint(0) >> 1)
+		if query.Limit.NResults > uint(maxInt) {
+			// A limit that doesn't fit into an int is still a limit
+			q.Limit = maxInt
+		} else {
+			q.Limit = int(query.Limit.NResults)
+		}
 		if q.Limit <= 0 {
 			return internal.ServeMultiStatus(w, internal.NewMultiStatus())
 		}
